@@ -216,10 +216,10 @@ example : HalfWidths none Ex.a Ex.steps [2, 4, 6] := by
     order and their widths, when each connection's own distances are half the widths of the two
     blocks it joins — with no assumption on the order of any connection set. -/
 theorem row_track_widths (T : TGrid) (k : Nat) (mv : Option Rat) (n : Nat) (b : Nat → GBlock) (cn : Nat → GConn)
-    (R : Row T k mv n b cn) (hn : 0 < n) (hlen : n ≤ T.blocks.length) (w : Nat → Rat)
+    (R : Row T k mv n b cn) (hn : 0 < n) (w : Nat → Rat)
     (hw : ∀ i, i < n → distAt (cn i) (b i).name = w i / 2 ∧ distAt (cn i) (b (i + 1)).name = w (i + 1) / 2) :
     track T (b 0) k mv = .ok ((List.range' 0 (n + 1)).map b, (List.range' 0 (n + 1)).map w) :=
-  track_row R hn hlen w hw
+  track_row R hn (by have := R.length_le; omega) w hw
 
 /-- Spacings of a three-dimensional rectangular lattice (at least two blocks in every direction):
     from the origin block `blk 0 0 nz` (first row, first column, bottom layer) `block_spacings`
@@ -230,7 +230,6 @@ theorem row_track_widths (T : TGrid) (k : Nat) (mv : Option Rat) (n : Nat) (b : 
 theorem rectgeo_spacings_lattice_partial (T : TGrid) (mv : Rat) (nx ny nz : Nat) (blk : Nat → Nat → Nat → GBlock)
     (cx cy cz : Nat → Nat → Nat → GConn) (L : Lattice T mv nx ny nz blk cx cy cz)
     (hx : 0 < nx) (hy : 0 < ny) (hz : 0 < nz)
-    (hlen : nx ≤ T.blocks.length ∧ ny ≤ T.blocks.length ∧ nz ≤ T.blocks.length)
     (it jt : Nat) (hit : it ≤ nx) (hjt : jt ≤ ny) (htop : topmostBlock T (some mv) = .ok (blk it jt 0))
     (c0 c1 : P3) (hc0 : (blk it jt 0).centre = some c0) (hc1 : (blk it jt nz).centre = some c1) (hdown : c1.z ≤ c0.z)
     (wx wy wz : Nat → Rat)
@@ -242,7 +241,7 @@ theorem rectgeo_spacings_lattice_partial (T : TGrid) (mv : Rat) (nx ny nz : Nat)
       distAt (cz it jt l) (blk it jt (l + 1)).name = wz (l + 1) / 2) :
     blockSpacings T (blk 0 0 nz) mv =
       .ok ((List.range' 0 (nx + 1)).map wx, (List.range' 0 (ny + 1)).map wy, (List.range' 0 (nz + 1)).map wz) :=
-  blockSpacings_lattice L hx hy hz hlen it jt hit hjt htop c0 c1 hc0 hc1 hdown wx wy wz hwx hwy hwz
+  blockSpacings_lattice L hx hy hz it jt hit hjt htop c0 c1 hc0 hc1 hdown wx wy wz hwx hwy hwz
 
 /-- Every column of a lattice is a vertical line of the grid, and every grid line along
     directions 1 and 2 is a line: the hypothesis `isLine` of `find_surface_on_line`,
@@ -261,7 +260,7 @@ example : Lattice Ex2.grid (10 ^ 20) 1 1 1 Ex2.blk Ex2.cx Ex2.cy Ex2.cz := Ex2.l
 example : topmostBlock Ex2.grid (some (10 ^ 20)) = .ok (Ex2.blk 0 0 0) := by decide +kernel
 example : blockSpacings Ex2.grid (Ex2.blk 0 0 1) (10 ^ 20) = .ok ([2, 4], [3, 5], [1, 2]) := by
   have h := rectgeo_spacings_lattice_partial Ex2.grid (10 ^ 20) 1 1 1 Ex2.blk Ex2.cx Ex2.cy Ex2.cz Ex2.lattice
-    (by omega) (by omega) (by omega) (by decide) 0 0 (by omega) (by omega) (by decide +kernel)
+    (by omega) (by omega) (by omega) 0 0 (by omega) (by omega) (by decide +kernel)
     ⟨1, 3 / 2, -1 / 2⟩ ⟨1, 3 / 2, -2⟩ (by decide +kernel) (by decide +kernel) (by decide +kernel)
     Ex2.wx Ex2.wy Ex2.wz
     (by intro i hi; have : i = 0 := by omega
@@ -273,6 +272,119 @@ example : blockSpacings Ex2.grid (Ex2.blk 0 0 1) (10 ^ 20) = .ok ([2, 4], [3, 5]
   rw [h]; decide +kernel
 example : Row Ex2.grid 1 (some (10 ^ 20)) 1 (fun i => Ex2.blk i 0 1) (fun i => Ex2.cx i 0 1) :=
   Ex2.lattice.rowX 0 1 (by omega) (by omega)
+
+/-- `topmost_block` on a lattice that is the whole admissible part of the grid (`Layered`: every
+    admissible block is a block of the box, centre elevations strictly decrease with the layer
+    index): the block found by `nanargmax` is a top-layer block, whatever the block order. -/
+theorem lattice_topmost_block (T : TGrid) (mv : Rat) (nx ny nz : Nat) (blk : Nat → Nat → Nat → GBlock)
+    (cx cy cz : Nat → Nat → Nat → GConn) (L : Lattice T mv nx ny nz blk cx cy cz) (zc : Nat → Rat)
+    (Y : Layered T mv nx ny nz blk zc) :
+    ∃ it jt, it ≤ nx ∧ jt ≤ ny ∧ topmostBlock T (some mv) = .ok (blk it jt 0) :=
+  L.topmost Y
+
+/-- Spacings of a three-dimensional rectangular lattice, no hypothesis on the walks or on the
+    topmost block: if the admissible blocks of `T` are exactly the box `blk i j l`, joined by
+    `cx, cy, cz` with own distances half the widths `wx i`, `wy j`, `wz l`, then `block_spacings`
+    from the origin block returns `(wx, wy, wz)`.  (Not `_partial`: every hypothesis is part of the
+    description of a rectangular grid.  That `fromgeo G` satisfies it is the open step.) -/
+theorem rectgeo_spacings_lattice (T : TGrid) (mv : Rat) (nx ny nz : Nat) (blk : Nat → Nat → Nat → GBlock)
+    (cx cy cz : Nat → Nat → Nat → GConn) (L : Lattice T mv nx ny nz blk cx cy cz) (zc : Nat → Rat)
+    (Y : Layered T mv nx ny nz blk zc) (hx : 0 < nx) (hy : 0 < ny) (hz : 0 < nz) (wx wy wz : Nat → Rat)
+    (hwx : ∀ i, i < nx → distAt (cx i 0 nz) (blk i 0 nz).name = wx i / 2 ∧
+      distAt (cx i 0 nz) (blk (i + 1) 0 nz).name = wx (i + 1) / 2)
+    (hwy : ∀ j, j < ny → distAt (cy 0 j nz) (blk 0 j nz).name = wy j / 2 ∧
+      distAt (cy 0 j nz) (blk 0 (j + 1) nz).name = wy (j + 1) / 2)
+    (hwz : ∀ i j l, i ≤ nx → j ≤ ny → l < nz → distAt (cz i j l) (blk i j l).name = wz l / 2 ∧
+      distAt (cz i j l) (blk i j (l + 1)).name = wz (l + 1) / 2) :
+    blockSpacings T (blk 0 0 nz) mv =
+      .ok ((List.range' 0 (nx + 1)).map wx, (List.range' 0 (ny + 1)).map wy, (List.range' 0 (nz + 1)).map wz) :=
+  blockSpacings_layered L Y hx hy hz wx wy wz hwx hwy hwz
+
+/-- Two-dimensional lattices (a single block along direction 1, resp. 2): the missing spacing
+    `w0` is recovered from the origin block's volume `w0 * (own sizes in the other two directions)`. -/
+theorem rectgeo_spacings_lattice_2d (T : TGrid) (mv : Rat) (n nz : Nat) (blk : Nat → Nat → Nat → GBlock)
+    (cx cy cz : Nat → Nat → Nat → GConn) (zc : Nat → Rat) (hn : 0 < n) (hz : 0 < nz) (w0 : Rat) (w wz : Nat → Rat)
+    (h0 : w 0 ≠ 0) (hz0 : wz nz ≠ 0) :
+    (Lattice T mv 0 n nz blk cx cy cz → Layered T mv 0 n nz blk zc →
+      (blk 0 0 nz).volume = w0 * w 0 * wz nz →
+      (∀ j, j < n → distAt (cy 0 j nz) (blk 0 j nz).name = w j / 2 ∧
+        distAt (cy 0 j nz) (blk 0 (j + 1) nz).name = w (j + 1) / 2) →
+      (∀ j l, j ≤ n → l < nz → distAt (cz 0 j l) (blk 0 j l).name = wz l / 2 ∧
+        distAt (cz 0 j l) (blk 0 j (l + 1)).name = wz (l + 1) / 2) →
+      blockSpacings T (blk 0 0 nz) mv = .ok ([w0], (List.range' 0 (n + 1)).map w, (List.range' 0 (nz + 1)).map wz)) ∧
+    (Lattice T mv n 0 nz blk cx cy cz → Layered T mv n 0 nz blk zc →
+      (blk 0 0 nz).volume = w 0 * w0 * wz nz →
+      (∀ i, i < n → distAt (cx i 0 nz) (blk i 0 nz).name = w i / 2 ∧
+        distAt (cx i 0 nz) (blk (i + 1) 0 nz).name = w (i + 1) / 2) →
+      (∀ i l, i ≤ n → l < nz → distAt (cz i 0 l) (blk i 0 l).name = wz l / 2 ∧
+        distAt (cz i 0 l) (blk i 0 (l + 1)).name = wz (l + 1) / 2) →
+      blockSpacings T (blk 0 0 nz) mv = .ok ((List.range' 0 (n + 1)).map w, [w0], (List.range' 0 (nz + 1)).map wz)) :=
+  ⟨fun L Y hv hwy hwz => blockSpacings_layered_2d_x L Y hn hz w0 w wz hv h0 hz0 hwy hwz,
+   fun L Y hv hwx hwz => blockSpacings_layered_2d_y L Y hn hz w0 w wz hv h0 hz0 hwx hwz⟩
+
+/-- Surfaces, flat or stepped: a column given as a `Row` in direction 3 (top block `b 0` … bottom
+    block `b n`, any height `n ≥ 1` — each column has its own), whose bottom block is the one the
+    block map gives for the reconstructed column and whose top block carries C04's centre and
+    volume for layer `lay` of the generating geometry: `find_surface` returns the generating
+    column's surface (inside `lay`, at its top, or above the top layer).  The walk hypotheses of
+    `surfaces_recovered_partial` (`isLine`, the length bound, the last size) are derived here;
+    what stays assumed is the block-map lookup `hmp` (`block_mapping` is not proved). -/
+theorem column_surface_on_row_partial (T : TGrid) (mv : Rat) (n : Nat) (b : Nat → GBlock) (cn : Nat → GConn)
+    (R : Row T 3 (some mv) n b cn) (hn : 0 < n) (w : Nat → Rat)
+    (hw : ∀ l, l < n → distAt (cn l) (b l).name = w l / 2 ∧ distAt (cn l) (b (l + 1)).name = w (l + 1) / 2)
+    (g : Geo) (mp : BlockMap) (col : Column) (bottomLayer : Layer) (gn : Str)
+    (hbl : g.layerlist.getLast? = some bottomLayer)
+    (hgn : blockName g.convention bottomLayer.name col.name = .ok gn)
+    (hmp : mp.lookup gn = some (b n).name)
+    (G : Geo) (lay : Layer) (colG : Column) (hwf : LayersWF G) (hl : lay ∈ G.layers) (harea : 0 < colG.area)
+    (hsame : col.area = colG.area)
+    (hcentre : (b 0).centre = blockCentre G lay colG) (hvol : some (b 0).volume = blockVolume G lay colG)
+    (hvpos : (b 0).volume > 0)
+    (hcase :
+      (lay.bottom < colG.surface ∧ colG.surface ≤ lay.top ∧ colG.surface - lay.bottom ≤ w 0) ∨
+      (G.layers.head? = some lay ∧ lay.top < colG.surface ∧
+        lay.centre = (1 / 2 : Rat) * (lay.bottom + lay.top) ∧ w 0 = lay.top - lay.bottom)) :
+    columnSurface T g mp mv col = .ok (some colG.surface) :=
+  columnSurface_row_recovered R hn w hw g mp col bottomLayer gn hbl hgn hmp G lay colG hwf hl harea hsame
+    hcentre hvol hvpos hcase
+
+example : Layered Ex2.grid (10 ^ 20) 1 1 1 Ex2.blk Ex2.pz := Ex2.layered
+example : blockSpacings Ex2.grid (Ex2.blk 0 0 1) (10 ^ 20) = .ok ([2, 4], [3, 5], [1, 2]) := by
+  have h := rectgeo_spacings_lattice Ex2.grid (10 ^ 20) 1 1 1 Ex2.blk Ex2.cx Ex2.cy Ex2.cz Ex2.lattice Ex2.pz Ex2.layered
+    (by omega) (by omega) (by omega) Ex2.wx Ex2.wy Ex2.wz
+    (by intro i hi; have : i = 0 := by omega
+        subst this; decide +kernel)
+    (by intro j hj; have : j = 0 := by omega
+        subst this; decide +kernel)
+    (by intro i j l hi hj hl
+        have : l = 0 := by omega
+        subst this
+        have : (i = 0 ∨ i = 1) ∧ (j = 0 ∨ j = 1) := by omega
+        rcases this with ⟨rfl | rfl, rfl | rfl⟩ <;> decide +kernel)
+  rw [h]; decide +kernel
+-- the walk-side hypotheses of `column_surface_on_row_partial` on column (0,0) of the lattice, with the
+-- C04 example geometry supplying layer and column names for the block-map key
+example : Row Ex2.grid 3 (some (10 ^ 20)) 1 (fun l => Ex2.blk 0 0 l) (fun l => Ex2.cz 0 0 l) :=
+  Ex2.lattice.rowZ 0 0 (by omega) (by omega)
+example : Proofs.FromGeo.Ex.geo.layerlist.getLast? = some Proofs.FromGeo.Ex.l2 ∧
+    blockName Proofs.FromGeo.Ex.geo.convention Proofs.FromGeo.Ex.l2.name Proofs.FromGeo.Ex.colA.name =
+      .ok [' ', ' ', 'a', ' ', '2'] ∧
+    Ex2.mp.lookup [' ', ' ', 'a', ' ', '2'] = some (Ex2.blk 0 0 1).name ∧
+    distAt (Ex2.cz 0 0 0) (Ex2.blk 0 0 0).name = Ex2.wz 0 / 2 ∧ (Ex2.blk 0 0 0).volume > 0 := by decide +kernel
+-- a 2-D lattice (1 x 2 x 2: the slice i = 0 of the example): the single block's width 2 along
+-- direction 1 is recovered from the origin block's volume 2 * 3 * 2
+example : blockSpacings Ex2.grid2 (Ex2.blk 0 0 1) (10 ^ 20) = .ok ([2], [3, 5], [1, 2]) := by
+  have h := (rectgeo_spacings_lattice_2d Ex2.grid2 (10 ^ 20) 1 1 Ex2.blk Ex2.cx Ex2.cy Ex2.cz Ex2.pz
+    (by omega) (by omega) 2 Ex2.wy Ex2.wz (by decide +kernel) (by decide +kernel)).1 Ex2.lattice2 Ex2.layered2
+    (by decide +kernel)
+    (by intro j hj; have : j = 0 := by omega
+        subst this; decide +kernel)
+    (by intro j l hj hl
+        have : l = 0 := by omega
+        subst this
+        have : j = 0 ∨ j = 1 := by omega
+        rcases this with rfl | rfl <;> decide +kernel)
+  rw [h]; decide +kernel
 
 /-! ### orientation -/
 
